@@ -249,6 +249,12 @@ def gen_case(rng):
                     cols[c] = [(x.upper() if isinstance(x, str) and rng.random() < 0.5 else x) for x in cols[c]]
             kw[c] = v
         cond = {'kw': kw, 'as': rng.choice(['kw', 'kw', 'dict', 'split', 'two_dicts'])}
+    if 'kw' in cond and n and rng.random() < 0.08:
+        # a column mixing numbers with strings that spell the same numbers (ids read from two sources), no None: a string condition means the string
+        c = names[0]
+        pool_ = [1001, '1001', 2.5, '2.5', 'x', 3, '3', 1001]
+        cols[c] = [rng.choice(pool_) for _ in range(n)]
+        cond = {'kw': {c: rng.choice(['1001', '2.5', ['1001', '3'], ['2.5', 'x'], 1001, [3, '2.5']])}, 'as': rng.choice(['kw', 'dict'])}
     case = {'cols': cols, 'cond': cond}
     if rng.random() < 0.6:
         case['find'] = rng.choice(names + ['id'])
